@@ -177,9 +177,11 @@ func c07Pool(thorough bool) []c07Def {
 			/*18*/ c07Def{name: "tvl", src: "let tvl = fun (gv:string) (idf:string) -> gv + idf\n", owns: exact("tvl")},
 			/*19*/ c07Def{name: "shadow1", src: "let shadow1 (idf:int) (mk:int) =\n  let gv = idf + mk\n  gv * 2\n", owns: exact("shadow1")},
 			// a package_info block whose external types have the SHORT NAMES of the user's own R and U (they live in
-			// another namespace: ext2.R, ext2.U) - unrelated to every definition that means the user's types
+			// another namespace: ext2.R, ext2.U) - unrelated to every definition that means the user's types; also
+			// the name of a type that a `type ... and ...` group refers to BEFORE declaring it (Tb: seeds C15f, C07h) and
+			// of a user function (idf) with another signature
 			/*20*/
-			c07Def{name: "PIsame", src: "package_info ext2 =\n  type R\n  type U\n  type G<T>\n  let MkR: ()->R\n  let UseU: U->int\n", owns: func(string) bool { return false }, declOnly: true, noOutput: true},
+			c07Def{name: "PIsame", src: "package_info ext2 =\n  type R\n  type U\n  type G<T>\n  type Tb\n  let MkR: ()->R\n  let UseU: U->int\n  let idf: string->int\n", owns: func(string) bool { return false }, declOnly: true, noOutput: true},
 			/*15*/ c07Def{name: "mkgs", src: "let mkgs (s:string) =\n  let g = {V=s; Vs=[s; s]}\n  g.Vs\n", deps: []int{10}, owns: exact("mkgs")},
 		)
 	}
